@@ -177,6 +177,7 @@ type batchReq struct {
 	KeepLog       bool          `json:"keep_log,omitempty"`
 	Samples       int           `json:"samples,omitempty"`
 	Hashes        bool          `json:"hashes,omitempty"`
+	KnownSigRe    []string      `json:"known_sig_re,omitempty"`
 	gomaxprocs    int
 }
 
@@ -212,6 +213,8 @@ type batchRes struct {
 	Samples    []json.RawMessage `json:"samples,omitempty"`
 	Outcomes   []*outcome        `json:"outcomes,omitempty"`
 	Hashes     []string          `json:"hashes,omitempty"`
+	Known      []violation       `json:"known,omitempty"`
+	KnownHits  int               `json:"known_hits,omitempty"`
 }
 
 func runBatch(a *artefacts, req *batchReq, limit time.Duration) (*batchRes, error) {
@@ -252,6 +255,8 @@ func runBatch(a *artefacts, req *batchReq, limit time.Duration) (*batchRes, erro
 // merged aggregates batch results.
 type merged struct {
 	Runs       int
+	Known      []violation // first world of each listed known finding, per batch
+	KnownHits  int
 	Violations []violation
 	Counters   map[string]int
 	caseKeys   map[uint64]struct{}
@@ -268,6 +273,18 @@ func newMerged() *merged {
 func (m *merged) add(r *batchRes) {
 	m.Runs += r.Runs
 	m.Violations = append(m.Violations, r.Violations...)
+	m.KnownHits += r.KnownHits
+	for _, k := range r.Known {
+		dup := false
+		for _, x := range m.Known {
+			if x.Sig == k.Sig {
+				dup = true
+			}
+		}
+		if !dup {
+			m.Known = append(m.Known, k)
+		}
+	}
 	for k, v := range r.Counters {
 		m.Counters[k] += v
 	}
@@ -285,7 +302,7 @@ func (m *merged) add(r *batchRes) {
 }
 
 // runBatches fans a seed range out over the worker pool.
-func runBatches(a *artefacts, kind, tier string, base uint64, total uint64, per uint64, deadline time.Time) (*merged, error) {
+func runBatches(a *artefacts, kind, tier string, base uint64, total uint64, per uint64, deadline time.Time, knownSigRe ...string) (*merged, error) {
 	m := newMerged()
 	var mu sync.Mutex
 	var firstErr error
@@ -303,7 +320,7 @@ func runBatches(a *artefacts, kind, tier string, base uint64, total uint64, per 
 		if to > total {
 			to = total
 		}
-		req := &batchReq{Kind: kind, Tier: tier, Base: base, From: from, To: to, MaxViolations: 3}
+		req := &batchReq{Kind: kind, Tier: tier, Base: base, From: from, To: to, MaxViolations: 3, KnownSigRe: knownSigRe}
 		if i == 0 {
 			req.Samples = 3
 		}
@@ -322,6 +339,7 @@ func runBatches(a *artefacts, kind, tier string, base uint64, total uint64, per 
 		}
 	})
 	sort.Slice(m.Violations, func(i, j int) bool { return m.Violations[i].Spec.Seed < m.Violations[j].Spec.Seed })
+	sort.Slice(m.Known, func(i, j int) bool { return m.Known[i].Sig < m.Known[j].Sig })
 	return m, firstErr
 }
 
